@@ -161,7 +161,9 @@ func genDataset(r *Rng, dir string, tag string) string {
 		}
 		if r.Chance(0.4) { // Wetland row
 			fmt.Fprintf(&act, "%d,Wetland,%s,%s,0,0,0,0,0,0,0,0,%s,%s,%s\n", p, f(opp(cost(20000))), f(cost(2.5e6)),
-				f(pick(0.99, 0.98, 0.5, 0)), f(pick(1, 0.9, 0.3)), f(pick(1, 0.95, 0.4)))
+				// an efficiency of 0 is legal: the wetland then leaves that variable where it is (a proposal with NO effect on one
+				// variable must still be a proposal of its own: seed C02m)
+				f(pick(0.99, 0.98, 0.5, 0)), f(pick(1, 0.9, 0.3, 0)), f(pick(1, 0.95, 0.4, 0, 0)))
 		}
 	}
 	w := func(name, content string) {
